@@ -73,3 +73,12 @@ Proof.
     unfold fe_bounds. destruct (gen_staticChunkSize (fe_n c) (fe_numThreads c)) as [t cc].
     rewrite map_length, seq_length. unfold fe_numThreads, fe_limit in *. lia.
 Qed.
+
+(* the functor a chunk applies is the value captured at schedule time (version 0), never a later state of the
+   caller's object *)
+Lemma C15_functor_value_proof : forall c a, In a (fe_plan c) -> c_state a = 0.
+Proof.
+  intros c a Ha. unfold fe_plan in Ha. destruct (fe_decide c).
+  - destruct Ha as [<-|[]]. reflexivity.
+  - unfold fe_calls in Ha. apply in_map_iff in Ha. destruct Ha as ([i [lo hi]] & <- & _). reflexivity.
+Qed.
